@@ -131,6 +131,29 @@ Section Sorting.
     intros HT HP Hs.
     eapply (sort_perm_invariant_gen SW l l); eauto using isort_perm, isort_sorted.
   Qed.
+  (* the model sort is stable: elements tied with k keep their input order *)
+  Definition tied (k x : A) : bool := negb (ltb k x) && negb (ltb x k).
+
+  Lemma insert_filter_tied (SW : StrictWeak) k x l :
+    filter (tied k) (insert x l) = (if tied k x then [x] else []) ++ filter (tied k) l.
+  Proof.
+    induction l as [|y r IH]; cbn [insert filter app].
+    - destruct (tied k x); reflexivity.
+    - destruct (ltb y x) eqn:E; cbn [filter].
+      + rewrite IH. destruct (tied k y) eqn:Ty; [|reflexivity].
+        destruct (tied k x) eqn:Tx; [|reflexivity]. exfalso.
+        (* y ~ k ~ x would make y and x incomparable *)
+        unfold tied in Ty, Tx. apply andb_true_iff in Ty as [Ty1 Ty2]. apply andb_true_iff in Tx as [Tx1 Tx2].
+        apply negb_true_iff in Ty1, Ty2, Tx1, Tx2.
+        pose proof (sw_negtrans SW y k x Ty2 Tx1) as C. congruence.
+      + destruct (tied k x); reflexivity.
+  Qed.
+
+  Lemma isort_stable_gen (SW : StrictWeak) k l : filter (tied k) (isort l) = filter (tied k) l.
+  Proof.
+    induction l as [|x r IH]; cbn [isort filter]; [reflexivity|].
+    rewrite (insert_filter_tied SW), IH. destruct (tied k x); reflexivity.
+  Qed.
 End Sorting.
 
 (* comparator that looks at a key only: the KEY sequence of the result is
